@@ -313,7 +313,7 @@ MUTANTS = [
    (H, ".ok_or(DecodeError::InvalidAVPLength(length))?;", ".ok_or(DecodeError::IncompleteAVP(attribute_type))?;"),
    (T + "proxy_authen_type.rs", ".map_err(|_| DecodeError::IncompleteAVP(Self::ATTRIBUTE_TYPE))", ".map_err(|_| DecodeError::UnknownAvp(Self::ATTRIBUTE_TYPE))")],
   "different DecodeError variants for Length < 12, AVP length < 6 and a bad proxy-authen code"),
- ("s06", [], [(SR, """        let result = self.data.get(..length)?;
+ ("m50", ["C18"], [(SR, """        let result = self.data.get(..length)?;
         self.data = &self.data[length..];
         Some(result)""", """        let result = match self.data.get(..length) {
             Some(r) => r,
@@ -324,7 +324,7 @@ MUTANTS = [
         };
         self.data = &self.data[length..];
         Some(result)""")],
-  "a refused bytes(n) consumes the rest instead of nothing"),
+  "a refused bytes(n) consumes the rest instead of nothing (was a silent row while C18 read the property loosely; see Deviations 4)"),
  ("s07", [], [(T + "bearer_capabilities.rs", """        let da_bit = (digital_access_supported as u32) << 7;
         let aa_bit = (analog_access_supported as u32) << 6;""", """        let da_bit = (digital_access_supported as u32) << 6;
         let aa_bit = (analog_access_supported as u32) << 7;"""),
